@@ -45,8 +45,8 @@ struct Opts {
 }
 
 fn yaml(o: &Opts) -> String {
-    let mut s = String::from("schema: ./schema.graphql\ndocuments: ./*.graphql\nextensions:\n  nitrogql:\n    generate:\n");
-    s.push_str(&format!("      mode: {}\n      schemaOutput: ./schema.d.ts\n", o.mode));
+    let mut s = String::from("schema: ./schema/*.graphql\ndocuments: ./src/*.graphql\nextensions:\n  nitrogql:\n    generate:\n");
+    s.push_str(&format!("      mode: {}\n      schemaOutput: ./src/schema.d.ts\n      type:\n        scalarTypes:\n          Date: string\n", o.mode));
     let mut name = String::new();
     if let Some(c) = o.capitalize {
         name.push_str(&format!("        capitalizeOperationNames: {c}\n"));
@@ -90,9 +90,9 @@ fn all_opts(quick: bool) -> Vec<Opts> {
                     for su in sfx {
                         for f in sfx {
                             for (result_type, variables_type) in [(None, None), (Some(true), Some(true)), (Some(true), Some(false))] {
-                                for mode in ["with-loader-ts-5.0", "with-loader-ts-4.0"] {
+                                for mode in ["with-loader-ts-5.0", "with-loader-ts-4.0", "standalone-ts-4.0"] {
                                     for type_suffixes in [false, true] {
-                                        if quick && (mode == "with-loader-ts-4.0" || type_suffixes) && !(q.is_none() && m.is_none() && su.is_none() && f.is_none()) {
+                                        if quick && (mode != "with-loader-ts-5.0" || type_suffixes) && !(q.is_none() && m.is_none() && su.is_none() && f.is_none()) {
                                             // quick: the secondary mode / type suffixes only with default variable suffixes
                                             continue;
                                         }
@@ -146,6 +146,9 @@ pub fn run(args: &RunArgs) -> i32 {
     let opts = all_opts(args.quick());
     let pool = crate::worker::Pool::new("c12-loader", args.threads);
     let pairs = AtomicU64::new(0);
+    let cli_runs = AtomicU64::new(0);
+    let cli_decls_checked = AtomicU64::new(0);
+    let cli_decls_identical = AtomicU64::new(0);
     let exports_compared = AtomicU64::new(0);
     let outcomes: Mutex<BTreeMap<String, u64>> = Mutex::new(BTreeMap::new());
     let slot_ctr = std::sync::atomic::AtomicUsize::new(0);
@@ -159,6 +162,29 @@ pub fn run(args: &RunArgs) -> i32 {
             }
             x.get()
         });
+        // the declaration files as the CLI writes them for this configuration (one run, all files)
+        let ext = match o.mode {
+            "with-loader-ts-5.0" => "d.graphql.ts",
+            "with-loader-ts-4.0" => "graphql.d.ts",
+            _ => "graphql.ts",
+        };
+        let cli_decls: BTreeMap<String, String> = {
+            let dir = crate::cli::thread_dir("c14");
+            let mut p = crate::cli::Project::default();
+            p.files.insert("graphql.config.yaml".into(), cfg_text.clone());
+            p.files.insert("schema/schema.graphql".into(), s.text.clone());
+            for (fname, ftext) in FILES {
+                p.files.insert(format!("src/{fname}.graphql"), ftext.to_string());
+            }
+            crate::cli::materialize(&dir, &p);
+            let a: Vec<String> = ["--config-file", "graphql.config.yaml", "--output-format", "json", "generate"].iter().map(|x| x.to_string()).collect();
+            let r = crate::cli::run(&dir, &a, &[], std::time::Duration::from_secs(60));
+            cli_runs.fetch_add(1, Ordering::Relaxed);
+            if r.code != Some(0) {
+                rep.report(Violation { key: "cli.generate_fails".into(), what: format!("`generate` exits with {:?} on the project of all operation files: {}", r.code, r.stdout.chars().take(600).collect::<String>()), case: json!({"config": cfg_text, "files": p.files}) });
+            }
+            FILES.iter().filter_map(|(fname, _)| r.after.get(&format!("src/{fname}.{ext}")).map(|b| (fname.to_string(), String::from_utf8_lossy(b).to_string()))).collect()
+        };
         for (fname, ftext) in FILES {
             pairs.fetch_add(1, Ordering::Relaxed);
             let case = |extra: J| json!({"config": cfg_text, "file": fname, "text": ftext, "detail": extra});
@@ -214,45 +240,62 @@ pub fn run(args: &RunArgs) -> i32 {
                     continue;
                 }
             };
-            let (dexp, dconsts) = match value_exports(&dts) {
-                Ok(x) => x,
-                Err(e) => {
-                    let cause = if fname == "anonymous" && o.suffix[0] == Some("") { "anonymous-operation-with-empty-variable-suffix".to_string() } else { format!("{fname}:{}", tag()) };
-                    rep.report(Violation { key: format!("unreadable:declaration[{cause}]"), what: format!("the declaration file is not well-formed: {e}"), case: case(json!({"dts": dts})) });
-                    continue;
-                }
-            };
-            let (jexp, _) = match value_exports(&js) {
-                Ok(x) => x,
-                Err(e) => {
-                    rep.report(Violation { key: "unreadable:javascript".into(), what: e, case: case(json!({"js": js})) });
-                    continue;
-                }
-            };
-            let jdocs: BTreeMap<String, J> = const_documents(&js).unwrap_or_default().into_iter().map(|(n, v, _)| (n, v)).collect();
-            let src = crate::rparse::parse_exec(ftext).unwrap();
-            *outcomes.lock().unwrap().entry(format!("{} value exports", dexp.len())).or_insert(0) += 1;
-            for (ename, dlocal) in &dexp {
-                exports_compared.fetch_add(1, Ordering::Relaxed);
-                let kind_of_export = if ename == "default" { "default" } else { "named" };
-                let Some(jlocal) = jexp.get(ename) else {
-                    rep.report(Violation {
-                        key: format!("declared_export_missing_at_runtime:{kind_of_export}[{}]", tag()),
-                        what: format!("{fname}: the declaration file exports {ename:?} but the loader's module exports {:?}", jexp.keys().collect::<Vec<_>>()),
-                        case: case(json!({"dts": dts, "js": js})),
-                    });
-                    continue;
+            let check_decl = |label: &str, dts: &str| {
+                let (dexp, dconsts) = match value_exports(dts) {
+                    Ok(x) => x,
+                    Err(e) => {
+                        let cause = if fname == "anonymous" && o.suffix[0] == Some("") { "anonymous-operation-with-empty-variable-suffix".to_string() } else { format!("{fname}:{}", tag()) };
+                        rep.report(Violation { key: format!("unreadable:declaration[{cause}]"), what: format!("the declaration file is not well-formed: {e}"), case: case(json!({"dts": dts, "declaration_from": label})) });
+                        return;
+                    }
                 };
-                // which source definition does the declared constant stand for? (declaration order = source order)
-                let Some(di) = dconsts.iter().position(|c| c == dlocal) else { continue };
-                let want = def_id(&src.defs[di]);
-                let got = jdocs.get(jlocal).and_then(|v| gjs_document(v).ok()).and_then(|d| d.defs.first().map(def_id));
-                if got.as_deref() != Some(want.as_str()) {
-                    rep.report(Violation {
-                        key: format!("export_carries_other_document:{kind_of_export}[{}]", tag()),
-                        what: format!("{fname}: export {ename:?} is declared for `{want}` but at runtime carries {got:?}"),
-                        case: case(json!({"dts": dts, "js": js})),
-                    });
+                let (jexp, _) = match value_exports(&js) {
+                    Ok(x) => x,
+                    Err(e) => {
+                        rep.report(Violation { key: "unreadable:javascript".into(), what: e, case: case(json!({"js": js})) });
+                        return;
+                    }
+                };
+                let jdocs: BTreeMap<String, J> = const_documents(&js).unwrap_or_default().into_iter().map(|(n, v, _)| (n, v)).collect();
+                let src = crate::rparse::parse_exec(ftext).unwrap();
+                *outcomes.lock().unwrap().entry(format!("{} value exports", dexp.len())).or_insert(0) += 1;
+                for (ename, dlocal) in &dexp {
+                    exports_compared.fetch_add(1, Ordering::Relaxed);
+                    let kind_of_export = if ename == "default" { "default" } else { "named" };
+                    let Some(jlocal) = jexp.get(ename) else {
+                        rep.report(Violation {
+                            key: format!("declared_export_missing_at_runtime:{kind_of_export}[{}]", tag()),
+                            what: format!("{fname}: the declaration file exports {ename:?} but the loader's module exports {:?}", jexp.keys().collect::<Vec<_>>()),
+                            case: case(json!({"dts": dts, "js": js, "declaration_from": label})),
+                        });
+                        return;
+                    };
+                    // which source definition does the declared constant stand for? (declaration order = source order)
+                    let Some(di) = dconsts.iter().position(|c| c == dlocal) else { continue };
+                    let want = def_id(&src.defs[di]);
+                    let got = jdocs.get(jlocal).and_then(|v| gjs_document(v).ok()).and_then(|d| d.defs.first().map(def_id));
+                    if got.as_deref() != Some(want.as_str()) {
+                        rep.report(Violation {
+                            key: format!("export_carries_other_document:{kind_of_export}[{}]", tag()),
+                            what: format!("{fname}: export {ename:?} is declared for `{want}` but at runtime carries {got:?}"),
+                            case: case(json!({"dts": dts, "js": js, "declaration_from": label})),
+                        });
+                    }
+                }
+            };
+            check_decl("library", &dts);
+            // the file the CLI wrote for the same configuration: the library text plus the source map comment,
+            // or else a declaration of its own that is judged the same way
+            match cli_decls.get(fname) {
+                None => rep.report(Violation { key: "cli.declaration_file_missing".into(), what: format!("the CLI wrote no src/{fname}.{ext}"), case: case(json!({})) }),
+                Some(t) => {
+                    cli_decls_checked.fetch_add(1, Ordering::Relaxed);
+                    let same = t.strip_prefix(dts.as_str()).is_some_and(|rest| rest.trim().lines().all(|l| l.starts_with("//# sourceMappingURL=")));
+                    if same {
+                        cli_decls_identical.fetch_add(1, Ordering::Relaxed);
+                    } else {
+                        check_decl("cli", t);
+                    }
                 }
             }
         }
@@ -264,16 +307,19 @@ pub fn run(args: &RunArgs) -> i32 {
         "traces_validated_against_impl": exports_compared.load(Ordering::Relaxed),
         "evaluations": n,
         "distinct_nontrivial": exports_compared.load(Ordering::Relaxed),
-        "rule": "full product of export/name options (as YAML text) x 9 operation files; distinct by construction; non-trivial = a declared value export that was looked up in the loader's module and whose embedded document was identified",
+        "rule": "full product of export/name options and generate modes (as YAML text) x 11 operation files; distinct by construction; non-trivial = a declared value export that was looked up in the loader's module and whose embedded document was identified",
         "exhaustive": true,
         "configurations": opts.len(),
         "files": FILES.len(),
         "pairs": n,
         "value_exports_compared": exports_compared.load(Ordering::Relaxed),
+        "cli_runs(one per configuration, all files)": cli_runs.load(Ordering::Relaxed),
+        "cli_declaration_files_checked": cli_decls_checked.load(Ordering::Relaxed),
+        "cli_declaration_files_identical_to_the_library_text": cli_decls_identical.load(Ordering::Relaxed),
         "histogram": *outcomes.lock().unwrap(),
         "samples": [{"config": yaml(&opts[opts.len() / 2]), "file": FILES[2].1}],
     });
-    rep.finish(cov, vec!["both sides receive the same configuration text; the loader side runs through the real extern \"C\" ABI (load_config, initiate_task, emit_js)".into(), "the i-th declared constant stands for the i-th definition of the file".into()])
+    rep.finish(cov, vec!["both sides receive the same configuration text; the loader side runs through the real extern \"C\" ABI (load_config, initiate_task, emit_js)".into(), "the i-th declared constant stands for the i-th definition of the file".into(), "the declaration side is judged twice: as the printer gives it for the parsed configuration, and as `nitrogql-cli generate` writes it into the project (a CLI file that is the library text plus the source map comment is not judged again)".into()])
 }
 
 pub fn replay(case: &J) -> i32 {
